@@ -186,7 +186,7 @@ func main() {
 		fmt.Fprintln(os.Stderr, "harness failure:", e)
 		os.Exit(3)
 	}
-	rep.Rule = "inputs: corpus, exhaustive strings over class-representative alphabets, every (context, mode prefix, byte, suffix), number-shape and escape families, seeded random documents with byte mutations, tokens straddling offset 4096; each input through 8 entry variants x chunkings x {single, multi}; duplicates are dropped before running (64-bit hash); distinct_nontrivial counts the distinct inputs of length >= 2"
+	rep.Rule = "inputs: corpus, exhaustive strings over class-representative alphabets, every (context, mode prefix, byte, suffix), number-shape and escape families, seeded random documents with byte mutations, tokens straddling offset 4096; each input through 8 entry variants x chunkings x {single, multi} plus 4 channel-delivery variants (Reuse requested) in multi mode; duplicates are dropped before running (64-bit hash); distinct_nontrivial counts the distinct inputs of length >= 2"
 	if err := rep.Write(*outPath); err != nil {
 		fmt.Fprintln(os.Stderr, err)
 		os.Exit(3)
@@ -264,6 +264,9 @@ func runAll(in []byte, idx int) []ran {
 	for vi := range variants {
 		v := &variants[vi]
 		for _, multi := range []bool{false, true} {
+			if v.MultiOnly && !multi {
+				continue
+			}
 			mode := "single"
 			if multi {
 				mode = "multi"
